@@ -272,6 +272,7 @@ func ExecRun(t *testing.T, sc *Scenario, tapes *sim.Tapes, tier string, keepLog 
 			rc.Stats.Add("sched.preemptions", int64(s.Preemptions))
 			rc.Stats.Add("sched.idle_steps", int64(s.IdleSteps))
 			rc.Stats.Add("sched.blocked_waits", int64(s.BlockedWaits))
+			rc.Stats.Add("sched.worker_stalls", int64(s.Stalls))
 			if s.MaxConcurrent > 1 {
 				rc.Stats.Inc("sched.runs_with_concurrency")
 			}
